@@ -1,6 +1,6 @@
 use crate::json::J;
 use rustc_hir::def_id::DefId;
-use rustc_middle::ty::print::with_no_trimmed_paths;
+use rustc_middle::ty::print::{with_no_trimmed_paths, with_no_visible_paths};
 use rustc_middle::ty::{self, GenericArgsRef, Ty, TyCtxt};
 use rustc_span::Span;
 
@@ -65,7 +65,13 @@ pub fn loc_s(tcx: TyCtxt<'_>, span: Span) -> String {
 
 pub fn def_path(tcx: TyCtxt<'_>, did: DefId) -> String {
     let krate = tcx.crate_name(did.krate).to_string();
-    let p = with_no_trimmed_paths!(tcx.def_path_str(did));
+    // workspace items are named by their definition path (not by a re-export), everything else by its visible path
+    let ws = did.is_local() || krate.starts_with("rsbdd");
+    let p = if ws {
+        with_no_visible_paths!(with_no_trimmed_paths!(tcx.def_path_str(did)))
+    } else {
+        with_no_trimmed_paths!(tcx.def_path_str(did))
+    };
     if did.is_local() {
         format!("{}::{}", krate, p)
     } else {
